@@ -6,6 +6,7 @@ import (
 	"go/constant"
 	"go/token"
 	"go/types"
+	"sort"
 	"strings"
 
 	"golang.org/x/tools/go/ssa"
@@ -954,3 +955,120 @@ func init() {
 	register("C07", Rule{"R07d", ruleOrderIndependentOfHash})
 	register("C06", Rule{"R07d", ruleOrderIndependentOfHash})
 }
+
+// R06h: a sort.Interface swaps everything its Less reads.  sort.Sort permutes elements through Swap and decides
+// through Less; if Less consults a slice field (a cache of keys or kinds, parallel to the elements) that Swap does not
+// permute — typically because Swap is promoted from an embedded type that knows nothing of the cache — then after the
+// first swap Less compares other elements' keys and the result is not sorted by the order Less was meant to express.
+func ruleSortInterfaceCoherent(p *Program, r *Report) {
+	r.Begin("R06h", "sort.Interface coherence: for every module type with Len/Less/Swap, each slice-typed field of the type (including fields of embedded structs) that Less indexes is written by Swap (the method actually selected for the type, promoted ones included)", 2)
+	defer r.End()
+	n := 0
+	seen := map[string]bool{}
+	for _, pk := range p.Roots {
+		sp := p.SSA[pk.PkgPath]
+		if sp == nil {
+			continue
+		}
+		for _, m := range sp.Members {
+			tn, ok := m.(*ssa.Type)
+			if !ok {
+				continue
+			}
+			for _, T := range []types.Type{tn.Type(), types.NewPointer(tn.Type())} {
+				ms := p.Prog.MethodSets.MethodSet(T)
+				less, swap, ln := ms.Lookup(nil, "Less"), ms.Lookup(nil, "Swap"), ms.Lookup(nil, "Len")
+				if less == nil || swap == nil || ln == nil || seen[tn.Type().String()] {
+					continue
+				}
+				lf, sf := p.Prog.MethodValue(less), p.Prog.MethodValue(swap)
+				if lf == nil || sf == nil {
+					continue
+				}
+				if sig := lf.Signature; sig.Params().Len() != 2 || sig.Results().Len() != 1 {
+					continue
+				}
+				seen[tn.Type().String()] = true
+				n++
+				r.Fn(FnName(lf))
+				// slice fields indexed in Less / stored-through in Swap, named by field path
+				sliceFields := func(f *ssa.Function, writes bool) map[string]bool {
+					out := map[string]bool{}
+					var body []*ssa.Function
+					var walk func(g *ssa.Function, d int)
+					walk = func(g *ssa.Function, d int) {
+						if g == nil || g.Blocks == nil || d > 2 {
+							return
+						}
+						body = append(body, g)
+						ForEachInstr(g, func(ins ssa.Instruction) {
+							if c, ok := ins.(*ssa.Call); ok {
+								if k := c.Call.StaticCallee(); k != nil && InRepo(k) && k.Signature.Recv() != nil {
+									walk(k, d+1) // wrappers of promoted methods call the embedded type's method
+								}
+							}
+						})
+					}
+					walk(f, 0)
+					for _, g := range body {
+						ForEachInstr(g, func(ins ssa.Instruction) {
+							ia, ok := ins.(*ssa.IndexAddr)
+							if !ok {
+								return
+							}
+							name := ""
+							switch x := ia.X.(type) {
+							case *ssa.UnOp:
+								if fa, ok := x.X.(*ssa.FieldAddr); ok {
+									name = structOf(fa.X.Type()).Field(fa.Field).Name()
+								} else if _, isParam := x.X.(*ssa.Alloc); isParam {
+									name = "(self)"
+								}
+							case *ssa.Field:
+								name = structOf(x.X.Type()).Field(x.Field).Name()
+							case *ssa.Parameter:
+								name = "(self)"
+							}
+							if name == "" {
+								if _, isSlice := ia.X.Type().Underlying().(*types.Slice); isSlice {
+									name = "(self)"
+								} else {
+									return
+								}
+							}
+							if !writes {
+								out[name] = true
+								return
+							}
+							for _, ref := range *ia.Referrers() {
+								if st, ok := ref.(*ssa.Store); ok && st.Addr == ssa.Value(ia) {
+									out[name] = true
+								}
+							}
+						})
+					}
+					return out
+				}
+				read, written := sliceFields(lf, false), sliceFields(sf, true)
+				var miss []string
+				for f := range read {
+					if !written[f] {
+						miss = append(miss, f)
+					}
+				}
+				sort.Strings(miss)
+				name := shortT(tn.Type())
+				if len(miss) == 0 {
+					r.OK("sorter@"+name, fmt.Sprintf("Less indexes {%s}, Swap permutes {%s}", strings.Join(SortedKeys(read), ","), strings.Join(SortedKeys(written), ",")), lf.Pos())
+				} else {
+					r.Viol("sorter@"+name, fmt.Sprintf("%s.Less indexes %s, which %s does not permute: after the first swap the keys Less consults belong to other elements, so the result is not in the order Less expresses (and depends on the input order)", name, strings.Join(miss, ", "), FnName(sf)), lf.Pos())
+				}
+			}
+		}
+	}
+	if n == 0 {
+		r.Undecided("sites", "no sort.Interface implementation found in the module", 0)
+	}
+}
+
+func init() { register("C06", Rule{"R06h", ruleSortInterfaceCoherent}) }
